@@ -1,7 +1,7 @@
 """`vh conc`: multi-threaded scenarios on real salsa (shuttle scheduler or real threads), the sequential
 oracle, the in-process Rust port of the dependency-graph model, and replay of the recorded hook traces
 through the Lean drivers `svdriver dg|cancel|alloc`."""
-import os, re, glob
+import os, re, glob, shutil
 from checklib import Tie, Failure, HarnessError, sh
 
 BAD = re.compile(r'^(digest-mismatch|answer-mismatch|not-enabled|bad-op|mismatch|client-precondition-violated)|inv=FAIL')
@@ -18,6 +18,9 @@ def run_conc(ctx, scenario, mode, cases, drivers=(), seed_offset=0, extra=()):
     else:
         binp = ctx.cargo_bin('conc', cfg='threads')
     tr = os.path.join(ctx.work, 'traces-%s-%s' % (scenario, mode))
+    # traces of earlier runs (other seeds, other salsa trees, other numbers of schedules per case — the
+    # file names then differ) must not be replayed as if this run had produced them
+    shutil.rmtree(tr, ignore_errors=True)
     os.makedirs(tr, exist_ok=True)
     cmd = [binp, scenario, '--mode', mode, '--seed', str(ctx.seed + seed_offset), '--cases', str(cases),
            '--replay-dir', ctx.replays] + (['--trace-out', tr] if drivers else []) + list(extra)
